@@ -108,8 +108,46 @@ def _gen_upload_while_stalled(rng, tier):
                "sched": {"seed": rng.randrange(1 << 30)}, "horizon": 100.0}
 
 
+def _gen_many_resets(rng, tier):
+    """More streams than any per-connection table holds, one batch after the other: each has a response waiting for its window (initial
+    window 0) when the client resets it.  A reset stream is gone - whatever was kept for it (buffer, place in the priority tree) with it:
+    the stream opened after all of them is served like the first."""
+    from ..wire.h2raw import FrameBuilder, client_preface
+
+    for k in range(2 if tier == "quick" else 10):
+        base = 9500000 + k * 10000
+        total = rng.choice([1010, 1100, 1300])
+        per = rng.choice([20, 50, 90])
+        fb = FrameBuilder()
+        rspec = {"kind": "h2", "initial_window": 0, "max_frame": 16384, "credit": "none"}
+        client = [["feed", client_preface(fb, rspec)], ["settle"]]
+        streams = []
+        sid = 1
+        left = total
+        while left > 0:
+            batch = list(range(sid, sid + 2 * min(per, left), 2))
+            client.append(["feed", b"".join(fb.headers(x, [(b":method", b"GET"), (b":scheme", b"http"), (b":path", b"/r%d" % x), (b":authority", b"h")], end_stream=True)
+                                            for x in batch)])
+            client.append(["settle"])
+            client.append(["feed", b"".join(fb.rst(x, 8) for x in batch)])
+            client.append(["settle"])
+            sid = batch[-1] + 2
+            left -= len(batch)
+        tag = base + 1
+        client += [["feed", fb.headers(sid, [(b":method", b"GET"), (b":scheme", b"http"), (b":path", b"/t%d" % tag), (b":authority", b"h")], end_stream=True)], ["settle"],
+                   ["react", "window_update", sid, 1000], ["settle"]]
+        streams.append({"sid": sid, "tag": tag, "size": 0, "rst_at": None, "literal": True})
+        yield {"family": "many-resets.%d" % total, "backends": ["asyncio", "trio"], "config": {"keep_alive_timeout": 5000, "keep_alive_max_requests": 1000000},
+               "conn": {}, "apps": {"default": [["recv_until_end"], ["respond", 200, [], b"blocked-body"]],
+                                    "by_tag": {str(tag): [["recv_until_end"], ["respond", 200, [(b"x-tag", b"%d" % tag)], b"late-%d" % tag]]}},
+               "client": client, "reactor": rspec,
+               "truth": {"streams": streams, "iw": 0, "mf": 16384, "policy": "many-resets", "total": total, "nreset": total},
+               "sched": {"seed": rng.randrange(1 << 30)}, "horizon": 100.0}
+
+
 def gen(rng, tier):
     yield from _gen_upload_while_stalled(rng, tier)
+    yield from _gen_many_resets(rng, tier)
     yield from _gen_batched(rng, tier)
     yield from _gen_prio_silent(rng, tier)
     yield from _gen_main(rng, tier)
@@ -291,9 +329,10 @@ def check(case, obs, tally):
     if obs.spin:
         out.append({"clause": "spin", "sig": "C09.spin", "detail": obs.spin})
         return out
-    if obs.handler == "exception":
+    if obs.handler == "exception" and t["policy"] != "many-resets":
         tally.inconclusive["handler-crashed(C04)"] += 1
         return out
+    # (many-resets: whatever the reset streams did to the connection, the stream after them is owed its response)
     rx = obs.reactor
     tally.clause("accountant")
     if rx.errors():
@@ -321,6 +360,12 @@ def check(case, obs, tally):
             out.append({"clause": "complete-ordered", "sig": "C09.order/corrupt-or-reordered",
                         "detail": "stream %d: received bytes are not a prefix of the application's body (first diff %d)" % (
                             s["sid"], _first_diff(got, exp))})
+            continue
+        if was_reset and t["policy"] == "many-resets" and s["rst_at"] is None:
+            # "A ... reset stream never stops other streams from progressing": the client did not reset this one
+            out.append({"clause": "complete-ordered", "sig": "C09.refused-after-resets",
+                        "detail": "after %d streams that the client reset while their responses waited for the window, the next stream (%d) was reset by "
+                                  "the server (error code %r) instead of being served" % (t["nreset"], s["sid"], sv.rst)})
             continue
         if was_reset:
             continue
